@@ -51,6 +51,9 @@ def main():
     try:
         demo = os.path.join(d, "demo.py")
         if os.path.exists(demo):
+            # run from the tree root (some demos insist on importing the package from the current directory)
+            shutil.copy(demo, os.path.join(wt, "_demo_seeded.py"))
+            demo = os.path.join(wt, "_demo_seeded.py")
             rc, out = sh([PY, demo], cwd=wt)
             result["demo_clean_rc"] = rc
         rc, out = sh(["git", "-C", wt, "apply", os.path.join(d, "patch.diff")])
@@ -62,7 +65,7 @@ def main():
             result["demo_patched_rc"] = rc
             result["demo_patched_tail"] = out[-400:]
         if a.suite:
-            rc, out = sh([PY, "-m", "pytest", "-q", "-p", "no:cacheprovider", "--timeout=900"], cwd=wt)
+            rc, out = sh([PY, "-m", "pytest", "-q", "-p", "no:cacheprovider", "--timeout=900", "--ignore=_demo_seeded.py"], cwd=wt)
             result["suite_rc"] = rc
             result["suite_tail"] = out.strip().splitlines()[-1] if out.strip() else ""
         # protect evidence
